@@ -5,7 +5,7 @@
 set -u
 sid=$1; prop=$2; shift 2
 checks=${@:-$prop}
-wt=/tmp/wt/$sid; out=/tmp/seedout/$sid
+wt=${WT_BASE:-/tmp/wt}/$sid; out=${OUT_BASE:-/tmp/seedout}/$sid
 export GOFLAGS=-mod=mod GOPROXY=off
 cd $wt || exit 2
 git checkout -q -- . ; git clean -fdq
